@@ -73,9 +73,19 @@ pub fn enabled<P: Proto>(w: &ClientWorld<P>, cfg: &Cfg) -> Vec<(CAct, u8)> {
             if !connected {
                 v.push((CAct::Reconnect { sp: true }, 0));
                 v.push((CAct::Reconnect { sp: false }, 1));
+                if cfg.prop != "C07" && w.mon.errors().len() < 3 {
+                    // an attempt the broker refuses: what is carried over must survive it
+                    v.push((CAct::ReconnectRefused, 1));
+                }
             }
             if cfg.throttle_ms > 0 && (held.pending_pubs.len() + held.pending_rels.len() + held.pending_other) > 0 {
                 v.push((CAct::T(cfg.throttle_ms as u32), 0));
+            }
+            if cfg.keep_alive_s > 0 && cfg.variant == 5 && connected && healthy {
+                // keep-alive running next to the publish flows: a collision that outlives
+                // two pings ends the connection (CollisionTimeout); nothing may be lost
+                v.push((CAct::T(cfg.keep_alive_s as u32 * 1000), 0));
+                v.push((CAct::B(Pk::PingResp), 0));
             }
         }
         "C10" => {
@@ -293,6 +303,14 @@ fn plans(prop: &str, tier: Tier) -> Vec<Plan> {
                     }
                 }
             }
+            // keep-alive pings next to the flows: out-of-order acks park a publish on a
+            // collision, two pings later the client gives up the connection
+            for v5 in [false, true] {
+                let mut c = Cfg::base("C02", v5, 2);
+                c.variant = 5;
+                c.keep_alive_s = 5;
+                v.push(Plan { cfg: c, depth_by_devs: if q { vec![4, 4] } else { vec![6, 6, 5] } });
+            }
             // MQTT 5: the resumed session announces a smaller receive maximum than the ids
             // still unacknowledged from the previous connection
             for (limit, next) in [(2u16, 1u16), (3, 1), (4, 2)] {
@@ -322,6 +340,12 @@ fn plans(prop: &str, tier: Tier) -> Vec<Plan> {
                     let c = Cfg::base("C07", v5, 65535);
                     v.push(Plan { cfg: c, depth_by_devs: vec![5, 5] });
                 }
+            }
+            // MQTT 5: a later connection announces a smaller receive maximum than the first
+            {
+                let mut c = Cfg::base("C07", true, 3);
+                c.recv_max_next = Some(1);
+                v.push(Plan { cfg: c, depth_by_devs: if q { vec![5, 5] } else { vec![8, 8] } });
             }
             // MQTT 5: broker announces a receive maximum below the configured limit
             let mut c = Cfg::base("C07", true, 3);
